@@ -184,3 +184,12 @@ def codecs_write_nested_instances_by_the_declared_class(v):
     f = v.get("facts", {})
     return (f.get("scenario") == "subclass-instance-in-parent-typed-member" and f.get("members_are_mixin_classes") is True
             and f.get("only_difference_is_subclass_members_dropped_by_codecs") is True)
+
+
+@predicate
+def recursive_union_with_alias_of_union_member_cannot_be_written(v):
+    """F57: `type Num = int | float; type Tree = Num | list[Tree]`: the field keeps ONE recursion target for its union packers;
+    the inner union behind the alias is compiled while the outer one is the target, so scalars are refused on to_dict
+    (InvalidFieldValue / ValueError), although from_dict reads the same documents."""
+    f = v.get("facts", {})
+    return f.get("scenario") == "special-D" and f.get("recursive_alias_with_alias_of_union_member") is True and f.get("exc") in ("InvalidFieldValue", "ValueError")
